@@ -7,6 +7,8 @@ Decides:
     vectors; g.cartrot on Cartesian vectors; g.trans is a unit-cell vector), both sides of every +/- have the same
     kind, values passed to / returned from the provided routes have the documented kind, and the fields of
     constructed PairState / ClusterSite / GroupOp objects receive the kind they are documented to hold;
+  * operator side: a rotation that multiplies a vector/tensor anywhere in the package is the left factor (or transposed on
+    the right): ``np.dot(v, R)`` is the inverse operation;
   * resolve: every provided route resolves and is called with a compatible argument list;
   * the routines are dimension-generic.
 Parameter kinds come from a frozen table taken from the docstrings.  Not decided: numerical round trips.
@@ -15,7 +17,7 @@ import ast
 
 from ..model import AnalysisError, dotted, unparse, walk_local
 from ..engines import coordkind
-from ._common import dim_generic, names_and_calls_resolve, groupop_composition_order
+from ._common import dim_generic, names_and_calls_resolve, groupop_composition_order, rotations_from_left
 
 # (module, qualified function, {param: kind}, declared return kind or None)
 TABLE = [
@@ -96,6 +98,8 @@ def run(model, rep, tier):
                        '' if ok else 'the returned value is of another coordinate kind than documented', engine='coordkind', qual=q)
     rep.floor('operator applications / sums decided', nchecked, 30)
     groupop_composition_order(model, rep)
+    rotations_from_left(model, rep, [(m, '') for m in ('crystal', 'crystalStars', 'cluster', 'supercell', 'OnsagerCalc', 'GFcalc')],
+                        min_instances=15)
     names_and_calls_resolve(model, rep, ROUTES)
     dim_generic(model, rep, [(m, q) for m, q in ROUTES], min_functions=40)
 
@@ -150,6 +154,7 @@ BREAKERS = [
     ('onsager/cluster.py', "return cls.fromcryscart(crys, cart_pos)", "return cls.fromcryscart(cart_pos)", 'resolves'),
     ('onsager/cluster.py', "cart_pos = crys.unit2cart(np.zeros(crys.dim, dtype=int), unit_pos)", "cart_pos = crys.unit2cart(unit_pos, np.zeros(crys.dim, dtype=int))", None),
 ]
+BREAKERS.append(('onsager/crystal.py', "rotlatt = np.dot(g.rot, lattvec)\n        rotind", "rotlatt = np.dot(lattvec, g.rot)\n        rotind", 'operator-side'))
 NEUTRALS = [
     ('onsager/crystal.py', "return np.dot(self.lattice, lattvec + uvec)", "return np.dot(self.lattice, uvec + lattvec)"),
     ('onsager/crystal.py', "return np.dot(g.cartrot, x) + np.dot(self.lattice, g.trans)", "return np.dot(self.lattice, g.trans) + np.dot(g.cartrot, x)"),
